@@ -66,7 +66,9 @@ TRUSTED = [
     "harness/c18.cpp dump routine (`#define private public`, `#define class struct` around quadtree.hpp); "
     "g++ ASan/UBSan as the memory-safety observer",
     "checks/c18.py: hex-float -> Fraction conversion, rounding-bound comparison, float re-evaluation of "
-    "add_summary over the cell list printed by the extracted forces_cells (forces_fold_cells proves the fold)",
+    "add_summary over the cell list of the extracted forces_subtrees (Properties_C18.forces_fold_subtrees proves the fold, "
+    "forces_subtrees_are_forces_cells relates it to forces_cells); the OCaml driver numbers the returned subtrees in preorder "
+    "by one synchronized walk (physical equality), checks/c18.py re-walks the tree itself and must get the same list",
     "binary64: the box arithmetic (containsPoint, child boxes x -/+ .5*hw) is modelled bit for bit in Coq primitive "
     "floats (QuadTree_Float_Model.v); the crack (finding F25) is a theorem about that model "
     "(children_cover_binary64_refuted, phantom_mass_binary64_refuted), its absence on grid inputs with headroom is a "
@@ -1477,11 +1479,11 @@ def check_float_replay(ctx, c, d, stats):
             if margin < 1e-9:
                 stats["float_replay_near_tie"] += 1
                 continue
-            if t.cond > 1e-12:
+            if t.cond > 1e-6 or margin < 8 * t.cond:
                 stats["float_replay_ill_conditioned"] += 1
                 continue
             stats["float_replay_forces"] += 1
-            if not close3(f, e, 1e-11 * abs(e[2]) + 1e-300):
+            if not close3(f, e, max(1e-11, 8 * t.cond) * abs(e[2]) + 1e-300):
                 return "computeNonEdgeForces(query %d, theta %s) = %r, binary64 replay gives %r" % (qi, ths, f, e)
     return None
 
